@@ -449,7 +449,9 @@ PLANS["C06"] = Plan(
 PLANS["C05"] = Plan(
     "C05", "proof",
     functions=[TL + ":tour_length", "moptipyapps.tsp.instance:Instance.__new__",
-               "moptipyapps.tsp.instance:Instance.__new__#copy-check", "moptipyapps.tsp.instance:Instance.__new__#dtype"],
+               "moptipyapps.tsp.instance:Instance.__new__#copy-check", "moptipyapps.tsp.instance:Instance.__new__#dtype",
+               "moptipyapps.tsp.instance:Instance.__new__#lower", "moptipyapps.tsp.instance:Instance.__new__#attributes",
+               TL + ":TourLength.lower_bound", TL + ":TourLength.upper_bound"],
     lemmas=["cyc_is_tour", "rmax_ge", "rmin_le", "cyc_le_max", "cyc_ge_min", "tour_within_instance_bounds"],
     extra=[leancheck.lean_prover(["A3.lean"], "C05")],
     bounded=[bounded.tsp_instance.harness],
